@@ -14,8 +14,9 @@ ASSUMPTIONS = [
 ]
 
 EXTERNAL = {
-    'filter': 'neurodsp.filt.filter_signal / the band-passed signal: enters only through the uninterpreted predicate osc3 '
-              '("at least three full oscillations inside the boundary") assumed at the top of the call chain',
+    'filter': 'neurodsp.filt.filter_signal / the band-passed signal: a real array of the input\'s length, otherwise unconstrained; '
+              'the hypothesis "at least three full oscillations inside the boundary" is the predicate osc3, assumed at the top of the '
+              'call chain and given its meaning over the zero-crossings of the filter output inside find_extrema (C02)',
     'amp': 'neurodsp.timefrequency.amp_by_time: uninterpreted function of (signal, fs, band, n_cycles), assumed even in the sign of the signal',
     'dual': 'neurodsp.burst.detect_bursts_dual_threshold: uninterpreted function of all its arguments, result has len(sig)',
     'rank': 'pandas Series.rank(): uninterpreted (average rank, nan stays nan); cross-checked against an independent reference by the bounded jobs',
@@ -46,9 +47,9 @@ prop('C01',
                  'columns satisfy the row, boundary, midpoint and tiling invariant, for both centrings, with and without '
                  'sample columns; no exception other than the documented ValueErrors (incl. the read-only-view and '
                  'n_seconds paths); find_zerox (one midpoint per flank, inside its flank) and check_min_burst_cycles are proved too. '
-                 'ASSUMED, not proved: the contract of find_extrema (strict alternation inside the boundary, equal counts, given '
-                 'osc3) - its two nested search loops are covered by the bounded jobs only (enumerated filtered-signal sign patterns, '
-                 'corpus). Bounded: armed corpus (pipeline:C01, armed), find_extrema / find_zerox stand-ins.')
+                 'The contract of find_extrema used here (strict alternation inside the boundary, equal counts, given osc3) is no '
+                 'longer assumed: it is proved under C02 from the code, relative to the stated meaning of osc3 over the filter output. '
+                 'Bounded: armed corpus (pipeline:C01, armed), find_extrema / find_zerox stand-ins.')
 
 prop('C04',
      level='other',
@@ -122,11 +123,30 @@ prop('C19',
 BU = 'bycycle.burst.utils.'
 DF = 'bycycle.utils.dataframes.'
 
-prop('C02', level='other', units=[], jobs=['find_extrema'],
-     explanation='Bounded only so far: find_extrema run with the external filter replaced by every enumerated filtered-signal '
-                 'sign pattern x raw signals with ties (padded length <= 7 quick / 9 thorough, sampled), all boundary / pad / '
-                 'first_extrema values, plus the real filter on the corpus, against the first-extremum-per-closed-half-wave '
-                 'reference. The callee-side contract of find_extrema (alternation, boundary) is assumed by C01.')
+FE = 'bycycle.cyclepoints.extrema.find_extrema'
+OSC3_DEF = ('definition of the hypothesis predicate osc3 ("the band-passed signal contains at least three full oscillations inside '
+            'the boundary"), assumed at the point where the filter output exists: three consecutive rise crossings of the (padded) '
+            'filter output, the first more than boundary samples into the unpadded signal, the last followed by a decay crossing at '
+            'most len(sig) - boundary into it')
+prop('C02', level='other', units=[FE], jobs=['find_extrema'],
+     unit_jobs={FE: ['find_extrema']},
+     trusted=[EXTERNAL['filter'], 'neurodsp compute_filter_length returns a positive integer; np.pad / np.argmax / np.argmin / '
+              'np.ceil / nonzero as documented (first extreme position, ValueError on an empty window)'],
+     assumptions=[OSC3_DEF],
+     explanation='Proved from the code (first_extrema="peak", filter options None or given, pad True or False, every signal length '
+                 'and every filter output satisfying osc3): with R / D the rise / decay zero-crossings of the band-passed padded '
+                 'signal, (1) the two crossing sequences strictly alternate (induction over the samples between two crossings), so '
+                 'the inner scan of find_extrema stops at decay number q + c for rise q (c in {0,1}); (2) each located peak is the '
+                 'FIRST maximum of the raw padded signal over [R[q], next decay) and each trough the first minimum over [D[t], next '
+                 'rise) - loop invariants over both nested loops, incl. the re-sliced scan window; (3) after un-padding, the '
+                 'boundary filter keeps a contiguous block of each sequence, aligned up to one element, and the first_extrema '
+                 'trimming removes exactly the leading trough / trailing peak, so the result starts with a peak, alternates strictly, '
+                 'has equally many (>= 2) peaks and troughs, all strictly inside the boundary; (4) every reported extremum is the '
+                 'first extreme value of one half-wave closed by crossings on both sides, and consecutive reported extrema come from '
+                 'consecutive half-waves (none skipped). No IndexError / empty-argmax on any path. NOT proved: first_extrema="trough" / '
+                 'None (bounded job), that no in-boundary half-wave before the first / after the last reported one is missing '
+                 '(bounded job), the filter itself. Bounded: find_extrema with the filter replaced by every enumerated sign pattern '
+                 'x raw signals with ties, all boundary / pad / first_extrema values, plus the real filter on the corpus.')
 
 ZX = 'bycycle.cyclepoints.zerox.'
 prop('C03', level='other', units=[ZX + 'find_zerox', ZX + '_find_flank_midpoints'], jobs=['find_zerox'],
